@@ -1,3 +1,4 @@
+import re
 """C06 — a value passes the restriction check exactly when it satisfies the facets.
 
 Decided on the MIR (`mir_built`) of every `impl CheckRestrictions` in the emitted helper module
@@ -67,6 +68,7 @@ class Analyzer:
         # check_restrictions calls stay calls: they are what the wrapper rules look for)
         self.B = M.Body(I.Inliner(F.lib, stop=lambda p: p.endswith("::check_restrictions")).body(fact_body)) if depth == 0 else M.Body(fact_body)
         self.roles = roles  # param local -> 'value' | 'restr_opt' | 'restr' | Role
+        self.type_alias = {}   # generic parameter of a blanket impl -> the carrier it is analysed for
         self.depth = depth
         self.paths = []
         self._role_cache = {}
@@ -100,6 +102,8 @@ class Analyzer:
                 g = (self.B.term(s[2]).get("func") or {}).get("gargs") or []
                 if len(g) == 2:
                     src, dst = (g[1], g[0]) if s[1].endswith("From::from") else (g[0], g[1])
+                    # inside a blanket impl the generic carrier stands for the type the body is being judged for
+                    src, dst = self.type_alias.get(src, src), self.type_alias.get(dst, dst)
                     if src in INT_RANGE or dst in INT_RANGE:
                         w = widening(src, dst)
                         if w is False:
@@ -456,12 +460,17 @@ class Analyzer:
             if not t["dest"].get("proj") and (t["dest"]["l"] in st["vals"] or a0v is not None):
                 st = self._fork(st)
                 st["vals"].pop(t["dest"]["l"], None)
-                if dcl.endswith("ops::Try::branch") and isinstance(a0v, tuple) and a0v[0] == "result":
+                if dcl.endswith("ops::Try::branch") and isinstance(a0v, tuple) and a0v[0] in ("result", "residual"):
                     st["vals"][t["dest"]["l"]] = a0v     # ControlFlow::Continue for Ok, Break for Err: same discriminants
             if dcl.endswith("FromResidual::from_residual") and not t["dest"].get("proj") and t["dest"]["l"] != 0:
                 # `?` inside an inlined callee: the callee's result on this path is this residual (handed to the caller's return place later)
                 st = self._fork(st)
-                st["vals"][t["dest"]["l"]] = ("residual", bb, a0v)
+                if isinstance(a0v, tuple) and a0v[0] == "errpayload":
+                    st["vals"][t["dest"]["l"]] = ("result", "Err", a0v[1])     # the Err built by hand further in, handed one level up
+                elif isinstance(a0v, tuple) and a0v[0] == "residual":
+                    st["vals"][t["dest"]["l"]] = a0v                           # the same propagated error, one level up
+                else:
+                    st["vals"][t["dest"]["l"]] = ("residual", bb, a0v)
             elif not t["dest"].get("proj") and t["dest"]["l"] not in st["vals"] and len(self.B.defs().get(t["dest"]["l"], [])) > 1:
                 # a local with several definitions: on this path it holds the result of this call
                 st = self._fork(st)
@@ -572,11 +581,17 @@ class Analyzer:
             if isinstance(src, tuple) and src[0] == "result" and src[1] == "Err":
                 vals[l] = ("errpayload", src[2])   # the error of a Result built by hand on this path, taken out by `?`
                 return
+            if isinstance(src, tuple) and src[0] == "residual":
+                vals[l] = src                      # the error propagated by a `?` further in, taken out by the next `?`
+                return
         if k == "aggregate" and rv.get("adt", "").endswith("result::Result"):
             vals[l] = ("result", rv["variant"], bb)
             return
         if k == "discr" and not rv["p"].get("proj") and isinstance(vals.get(rv["p"]["l"]), tuple) and vals[rv["p"]["l"]][0] == "result":
             vals[l] = ("int", 0 if vals[rv["p"]["l"]][1] == "Ok" else 1)
+            return
+        if k == "discr" and not rv["p"].get("proj") and isinstance(vals.get(rv["p"]["l"]), tuple) and vals[rv["p"]["l"]][0] == "residual":
+            vals[l] = ("int", 1)
             return
         if k == "unop" and rv.get("op") == "Not" and rv.get("a", {}).get("k") in ("copy", "move") and not rv["a"]["p"].get("proj") \
                 and isinstance(vals.get(rv["a"]["p"]["l"]), tuple) and vals[rv["a"]["p"]["l"]][0] == "int":
@@ -875,6 +890,10 @@ class Analyzer:
             tracked = ret_assign[3] if len(ret_assign) > 3 else None
             if isinstance(tracked, tuple) and tracked[0] == "errpayload":
                 return ("Err", tracked[1])   # `helper(..)?` with the helper inlined: the Err it built on this path
+            if isinstance(tracked, tuple) and tracked[0] == "residual":
+                if isinstance(tracked[2], tuple) and tracked[2][0] == "errpayload":
+                    return ("Err", tracked[2][1])
+                return ("Residual", tracked[1], self.role_of_operand(self.B.term(tracked[1])["args"][0]))
             r = self.role_of_operand(t["args"][0])
             return ("Residual", bb, r)
         r_args = [self.role_of_operand(a) for a in t["args"]]
@@ -1296,10 +1315,21 @@ def run(ck, F):
     impls = [i for i in F.lib.items["impls"] if i.get("trait") == TRAIT]
     ck.count("impls", len(impls))
     seen = set()
+    work = []
     for imp in impls:
-        self_ty = imp["self_ty"]
+        st = imp["self_ty"]
+        local_bounds = [b_ for b_ in imp.get("self_bounds") or [] if not b_.startswith(("std::", "core::", "alloc::"))]
+        if re.fullmatch(r"[A-Z]\w*", st) and "::" not in st and local_bounds:
+            # a blanket impl `impl<I: Marker> CheckRestrictions for I`: one body for every type that implements the (crate's own)
+            # bound; it is judged once per such carrier
+            covered = sorted({i2["self_ty"] for i2 in F.lib.items["impls"] if i2.get("trait") in local_bounds})
+            for c_ in covered:
+                work.append((c_, imp, f"<{st} as {TRAIT}>::check_restrictions"))
+            if covered:
+                continue
+        work.append((st, imp, f"<{st} as {TRAIT}>::check_restrictions"))
+    for self_ty, imp, path in work:
         cls = classify_carrier(self_ty)
-        path = f"<{self_ty} as {TRAIT}>::check_restrictions"
         fb = F.lib.body(path)
         site = imp["span"]
         if fb is None or not fb.get("mir"):
@@ -1320,6 +1350,8 @@ def run(ck, F):
         roles[1] = Role({"int": "value", "string": "value", "never": "value", "option": "value_opt", "vec": "value_vec",
                          "wrapper": "wrapped"}[cls])
         an = Analyzer(F, fb, roles)
+        if imp["self_ty"] != self_ty:
+            an.type_alias = {imp["self_ty"]: self_ty}
         if cls == "wrapper":
             # self.inner (Arc<C>) derefs to the wrapped value
             an.roles[1] = Role("wrapped")
@@ -1345,4 +1377,4 @@ def run(ck, F):
     for need in REQUIRED_CARRIERS:
         if need not in seen:
             ck.undecided("R2", f"missing-impl:{need}", "-", f"no impl CheckRestrictions for carrier {need} was found", fn=need)
-    ck.floor("R2", "CheckRestrictions impls analysed", len(impls), 14)
+    ck.floor("R2", "CheckRestrictions impls analysed", len(work), 14)
